@@ -6,7 +6,7 @@
    hypothesis is [decoder_ok]: x/text's streaming reader fed with the body in any pieces delivers
    what Decoder.Bytes makes of the whole body.  [respond ... = (o, true)] reads: the caller, reading
    with buffers of the given sizes, reached io.EOF and received o in total. *)
-From ReqV Require Import Lib.Bytes Model.Charset Proofs.CharsetProofs Proofs.CharsetPinned.
+From ReqV Require Import Lib.Bytes Model.Charset Proofs.CharsetProofs Proofs.CharsetTermination Proofs.CharsetPinned.
 
 (* for every body, every split into network reads, every sequence of caller buffer sizes and every
    hand-out schedule of the x/text reader: the delivered body is the original bytes or the
@@ -157,6 +157,43 @@ Theorem C15_read_size_independent_first_chunk :
       o1 = o2.
 Proof. exact read_size_independent_first_chunk. Qed.
 Print Assumptions C15_read_size_independent_first_chunk.
+
+(* the premise "reached io.EOF" is always met: every body is delivered completely within a bounded
+   number of reads, whatever the split, the (positive) buffer sizes and the reader's schedule *)
+Theorem C15_terminates :
+  forall (enc : Type) (dec_all : enc -> bytes -> bytes) (dec_stream : enc -> list bytes -> bytes)
+         (find_encoding : bytes -> option enc) (parse_ct : bytes -> ct_parse)
+         (lookup_charset : bytes -> option enc),
+    decoder_ok dec_all dec_stream ->
+    forall disable sel resp_ae ct chunks eof_last takes sizes N,
+      Forall (fun k => 1 <= k) sizes ->
+      (forall e, length (dec_all e (concat chunks)) <= N) ->
+      length chunks + length (concat chunks) + N + 1 < length sizes ->
+      snd (respond dec_stream find_encoding parse_ct lookup_charset
+                   disable sel resp_ae ct chunks eof_last takes sizes) = true.
+Proof. exact terminates. Qed.
+Print Assumptions C15_terminates.
+
+(* peek is never set by the repaired peekRead: peekDrain is unreachable, nothing is carried over
+   outside the streaming decoder *)
+Theorem C15_peek_never_set :
+  forall (enc : Type) (dec_stream : enc -> list bytes -> bytes) (find_encoding : bytes -> option enc)
+         sizes b,
+    peek_clear b -> Forall (fun x => peek_clear (snd x)) (run dec_stream find_encoding sizes b).
+Proof. exact peek_never_set. Qed.
+Print Assumptions C15_peek_never_set.
+
+(* the per-call trace evaluated by Model/C15Run.v and the delivered body the theorems speak about
+   are the same computation *)
+Theorem C15_read_all_is_the_trace :
+  forall (enc : Type) (dec_stream : enc -> list bytes -> bytes) (find_encoding : bytes -> option enc)
+         sizes b,
+    read_all dec_stream find_encoding sizes b =
+      (concat (map (fun x => fst (fst x)) (run dec_stream find_encoding sizes b)),
+       match last (map (fun x => snd (fst x)) (run dec_stream find_encoding sizes b)) ENone with
+       | EEOF => true | ENone => false end).
+Proof. exact read_all_run. Qed.
+Print Assumptions C15_read_all_is_the_trace.
 
 (* The pinned (pre-fix) peekRead violates two_results_only in three ways; witnesses kept checked
    (toy two-byte charset so that they are closed and computable). *)
